@@ -21,8 +21,59 @@ TOLERANCES = {"relative": 1e-8}
 BUDGET = {"quick": {"shards": 8, "examples": 600}, "thorough": {"shards": 16, "examples": 10000}}
 
 
+_traced = {}
+
+
+def traced_classes():
+    """Subclasses of the package's matching classes, passed through the public `matching=` parameter, that only *record* when an
+    entry was computed and when it was improved in place (sequence numbers). Needed to state the root cause of open finding F14
+    precisely; they change no behaviour."""
+    if _traced:
+        return _traced
+    base.load_repo()
+    import itertools
+    from leuvenmapmatching.matcher.simple import SimpleMatching
+    from leuvenmapmatching.matcher.distance import DistanceMatching
+    counter = itertools.count(1)
+
+    def make(parent):
+        class Traced(parent):
+            def __init__(self, *a, **kw):
+                super().__init__(*a, **kw)
+                self.t_seq = next(counter)
+                self.t_improved = None
+
+            def _update_inner(self, other):
+                super()._update_inner(other)
+                self.t_seq = next(counter)
+                self.t_improved = {"seq": self.t_seq, "cand_delayed": other.delayed, "round": self.matcher.expand_now}
+        Traced.__name__ = "Traced" + parent.__name__
+        return Traced
+    _traced["simple"] = make(SimpleMatching)
+    _traced["distance"] = make(DistanceMatching)
+    return _traced
+
+
+def f14_root_cause(matcher, v):
+    """Open finding F14: the first mismatching entry c of the path is *stale*: its path predecessor p was improved in place after
+    c was computed, and p was not re-expanded because (a) the improving candidate came from a chain of an earlier expansion round
+    (it carried delayed < expand_now, which _update_inner copies), or (b) p was re-postponed by pruning right after the improvement
+    and is still waiting for a wider lattice."""
+    k = v.details.get("index")
+    lb = matcher.lattice_best
+    if not k or not lb or k >= len(lb) or not (v.details["reported"] < v.details["model"]):
+        return False
+    c, p = lb[k], lb[k - 1]
+    imp = getattr(p, "t_improved", None)
+    if imp is None or not imp["seq"] > getattr(c, "t_seq", 1 << 60):
+        return False
+    return imp["cand_delayed"] < imp["round"] or p.delayed > matcher.expand_now
+
+
 def check_case(case, ctx):
     state = {"n_checked": 0}
+    fam = "distance" if case["config"]["family"] == "distance" else "simple"
+    case = dict(case, config=dict(case["config"], matching=traced_classes()[fam]))
 
     def after(matcher, op, states, idx, cur):
         if states is None:
@@ -32,8 +83,9 @@ def check_case(case, ctx):
         try:
             audit.replay_path(matcher, case, tol=1e-8, trace=case["trace"][:cur])
         except Violation as v:
-            if (v.clause in ("logprob", "logprob_ne") and expansions >= 1 and _reported_lower(v) and
-                    ctx.known("F14", "after extend/widen a path entry keeps a log-probability computed from a predecessor that was later improved")):
+            if (v.clause in ("logprob", "logprob_ne") and expansions >= 1 and f14_root_cause(matcher, v) and
+                    ctx.known("F14", "after extend/widen a path entry keeps a log-probability computed from a predecessor that was "
+                                     "later improved in place and not re-expanded")):
                 state["kf"] = True
                 return
             raise
@@ -56,6 +108,7 @@ def check_case(case, ctx):
         classes.append("avoid_goingback")
     if state.get("kf"):
         classes.append("excluded:F14")
+    case = dict(case, config={k: v for k, v in case["config"].items() if k != "matching"})
     ctx.record(case, len({m.shortkey for m in lb}) >= 2 and not state.get("kf"), sorted(set(classes)),
                base.canon(matcher, res[0], res[1]) if res else None)
 
@@ -67,8 +120,35 @@ def _reported_lower(v):
 
 
 def strategy(tier):
+    sz = gen.sizes(tier)
+
     @st.composite
     def _s(draw):
+        if draw(st.integers(0, 4)) == 0:
+            # narrow width + non-emitting states + prefix / extend / widen: the shape in which re-activation matters
+            if draw(st.booleans()):
+                case = draw(gen.ne_case(max_nodes=sz["max_nodes"], max_len=sz["max_len"], width=None))
+                case["gen"] = "ne-friendly+narrow-history"
+            else:
+                case = draw(gen.match_case(max_nodes=max(9, sz["max_nodes"]), max_len=sz["max_len"], min_len=3,
+                                           graph_kw={"families": ["mesh"]}, trace_kw={"kinds": ["walk", "walk", "sparse", "random"]},
+                                           config_kw={"width": None, "cutoffs": False}))
+                case["gen"] = "mesh+narrow-history"
+            n = len(case["trace"])
+            w = draw(st.sampled_from([1, 1, 2, 3]))
+            case["config"]["max_lattice_width"] = w
+            ops = [["match", draw(st.integers(1, max(1, n - 1)))]]
+            for _ in range(draw(st.integers(1, 4))):
+                k = draw(st.sampled_from(["extend", "widen", "widen", "rematch"]))
+                if k == "extend":
+                    ops.append(["extend", draw(st.integers(2, n))])
+                elif k == "widen":
+                    w += draw(st.integers(0, 2))
+                    ops.append(["widen", w])
+                else:
+                    ops.append(["rematch"])
+            case["ops"] = ops
+            return case
         case = draw(common.mixed_case(tier, ne_share=4, min_len=2))
         if draw(st.integers(0, 2)) == 0:
             case["ops"] = draw(common.history_ops(len(case["trace"])))
